@@ -1878,9 +1878,16 @@ feature! {
             }
 
             // An empty `Vec` is equivalent to `Option::None`: its `OFF` max
-            // level hint only applies if nothing else provides a hint.
-            if id == TypeId::of::<NoneLayerMarker>() && self.is_empty() {
-                return Some(NonNull::from(&NONE_LAYER_MARKER).cast());
+            // level hint only applies if nothing else provides a hint. The
+            // same is true for a `Vec` consisting only of `None` subscribers;
+            // a `Vec` that contains at least one real subscriber is *not* a
+            // `None` subscriber, even if some of its elements are.
+            if id == TypeId::of::<NoneLayerMarker>() {
+                return if self.iter().all(|s| s.downcast_raw(id).is_some()) {
+                    Some(NonNull::from(&NONE_LAYER_MARKER).cast())
+                } else {
+                    None
+                };
             }
 
             // Someone is looking for per-subscriber filters. But, this `Vec`
